@@ -146,6 +146,15 @@ func (u *Upstream) Close(ctx context.Context, opts ...UpstreamCloseOption) error
 }
 
 func (u *Upstream) closeWithError(ctx context.Context, causeError error, opts ...UpstreamCloseOption) error {
+	return u.closeWithErrorAndState(ctx, causeError, u.State, opts...)
+}
+
+// closeWithErrorWithoutLockは、u.muを取得済みの呼び出し元のためのcloseWithErrorです。
+func (u *Upstream) closeWithErrorWithoutLock(ctx context.Context, causeError error, opts ...UpstreamCloseOption) error {
+	return u.closeWithErrorAndState(ctx, causeError, u.stateWithoutLock, opts...)
+}
+
+func (u *Upstream) closeWithErrorAndState(ctx context.Context, causeError error, getState func() *UpstreamState, opts ...UpstreamCloseOption) error {
 	defer u.cancel()
 	if u.isClosed() {
 		return nil
@@ -156,7 +165,7 @@ func (u *Upstream) closeWithError(ctx context.Context, causeError error, opts ..
 		v(&opt)
 	}
 
-	state := u.stateWithoutLock()
+	state := getState()
 	resp, err := u.wireConn.SendUpstreamCloseRequest(ctx, &message.UpstreamCloseRequest{
 		StreamID:            u.ID,
 		TotalDataPoints:     state.TotalDataPoints,
@@ -446,7 +455,7 @@ func (u *Upstream) flush(ctx context.Context) error {
 	}
 
 	if err := u.validateState(); err != nil {
-		u.closeWithError(u.ctx, err)
+		u.closeWithErrorWithoutLock(u.ctx, err)
 		return err
 	}
 
